@@ -176,6 +176,55 @@ def run(ctx: Ctx):
     exponential_rules(ctx)
     warmup_rules(ctx)
     warmup_wrap(ctx)
+    factory_binding(ctx)
+
+
+def factory_binding(ctx: Ctx):
+    """C20.e the configured values reach the parameters that use them: every keyword passed to an in-module baseline / scaler
+    constructor names a declared parameter of that constructor.  A constructor that ends in `**kw` accepts any name, so a
+    keyword that is not a declared parameter vanishes silently and the object runs with its default (e.g. `exp_beta=` handed to
+    WarmupBaseline, whose parameter is `warmup_exp_beta`: the warm-up average keeps beta = 0.8 whatever was configured)."""
+    n_calls = 0
+    for path in (BL, UT):
+        mi = ctx.repo.module_by_path(path)
+        classes = {n.name: n for n in mi.tree.body if isinstance(n, ast.ClassDef)}
+
+        def init_of(cname, seen=()):
+            c = classes.get(cname)
+            if c is None or cname in seen:
+                return None
+            for b in c.body:
+                if isinstance(b, ast.FunctionDef) and b.name == "__init__":
+                    return b
+            for base in c.bases:
+                if isinstance(base, ast.Name):
+                    r = init_of(base.id, seen + (cname,))
+                    if r is not None:
+                        return r
+            return None
+
+        for fn in ast.walk(mi.tree):
+            if not isinstance(fn, (ast.FunctionDef,)):
+                continue
+            for call in ast.walk(fn):
+                if not (isinstance(call, ast.Call) and isinstance(call.func, ast.Name) and call.func.id in classes):
+                    continue
+                ini = init_of(call.func.id)
+                if ini is None:
+                    continue
+                a = ini.args
+                names = [x.arg for x in a.posonlyargs + a.args][1:] + [x.arg for x in a.kwonlyargs]
+                n_pos_max = len([x for x in a.posonlyargs + a.args]) - 1
+                swallowed = [k.arg for k in call.keywords if k.arg is not None and k.arg not in names]
+                too_many = a.vararg is None and len(call.args) > n_pos_max and not any(isinstance(x, ast.Starred) for x in call.args)
+                n_calls += 1
+                ok = not swallowed and not too_many
+                ctx.ob("C20.e", f"{fn.name}:{call.func.id}(...):keywords-bind", ok, f"{path}:{call.lineno}",
+                       f"{call.func.id}({', '.join([ast.unparse(x)[:20] for x in call.args] + [k.arg + '=' if k.arg else '**' for k in call.keywords])}) binds to declared parameters {names}"
+                       if ok else f"keyword(s) {swallowed} are not parameters of {call.func.id}.__init__ ({names}) and are swallowed by **{a.kwarg.arg if a.kwarg else 'kw'}: the configured value never reaches the object",
+                       construct=f"{fn.name}:{call.func.id}:keywords:" + ",".join(swallowed))
+    if n_calls < 3:
+        raise AnalysisError(f"only {n_calls} in-module constructor calls found in the baseline / scaler modules (floor 3)")
 
 
 def exponential_rules(ctx: Ctx):
